@@ -18,4 +18,11 @@ CHECKS.update({
  'C09': _c('C09', 'Every grouping operator is checked on tagged rows: one output group per distinct key, ascending key order, members exactly the rows with that key in input order, aggregation value = len/sum/list of those members; counts/sums conserved; selections are members and first/last/min/max.'),
  'C10': _c('C10', 'duplicates/unique partition by key multiplicity (tags), distinct keeps the first row of each key and counts add to nrows, conflicts is sound (only rows of disagreeing duplicate groups), isunique iff duplicates empty; whole-row keys via multisets.'),
 })
+CHECKS.update({
+ 'C04': _c('C04', 'For every ordered triple of value types the ordering laws (trichotomy, transitivity incl. through ==, derived operators, agreement with ==, the documented ladder via an independent reference order) are checked on symbolic ints/bools/floats/strings/sequences and on representatives for Decimal/date/time and numeric-mixing triples; issorted, comparison selectors and merge joins are checked to use the same order.'),
+ 'C13': _c('C13', 'Every selector is checked row by row against its documented predicate (reference order, missing cells), with the complement being the exact rest; biselect/facet/search partition; rowslice/head/tail/skip equal itertools.islice for all small argument triples.'),
+ 'C17': _c('C17', 'Real sqlite3 on a real file: for every row count, prior contents, failure position (header, each row, exhaustion, none), handle kind, commit flag and todb/appenddb, a fresh connection must see exactly the previous or the fully loaded contents.'),
+ 'C19': _c('C19', 'A symbolic failing flag per row (and field), symbolic policy, policy source (argument vs config) and errorvalue; convert/fieldmap/rowmap/rowmapmany output is compared with a reference per policy, including when the exception surfaces.'),
+ 'C20': _c('C20', 'A sweep of >130 unary catalogue entries on header-only tables (three container kinds) for usual header / no rows / no exception, plus every multi-input operator with each header-only mask through the full relational oracles of C05-C10.'),
+})
 NOT_APPLICABLE = {}
